@@ -52,6 +52,44 @@ mod proofs {
     }
 
     // @harness id=C01 tier=quick unwind=10 timeout=2400 fs=4096
+    // @desc BGV decryption of an ARBITRARY size-2 NTT-form ciphertext returns, coefficient-wise, the centred phase reduced modulo t (times the inverse correction factor), and the plaintext is trimmed to its LEADING non-zero coefficient (a zero coefficient below the leading one is kept), never below one coefficient
+    // @bounds BGV N=2, q={97}, t=17; all ciphertext residues (given in NTT form); secret key s = 1 - X (concrete); correction factor 1 or 3 (symbolic choice)
+    // @funcs Decryptor::decrypt, Decryptor::bgv_decrypt, Decryptor::dot_product_ct_sk_array, RNSTool::decrypt_mod_t, BaseConverter::exact_convey_array, polysmallmod::{intt_p,multiply_scalar_inplace}, get_significant_uint64_count_uint, Plaintext::resize
+    // @stubs HeContext::get_context_data -> linear search over the literal chain (HashMap lookup outside the claim); alloc::sync::Arc::drop_slow -> no-op (memory reclamation outside the claim)
+    #[kani::proof]
+    #[kani::stub(crate::context::HeContext::get_context_data, crate::context::verif_v::get_context_data_stub)]
+    #[kani::stub(alloc::sync::Arc::drop_slow, crate::verif_v::arc_drop_slow_noop)]
+    fn c01_bgv_decrypt_centred_mod_t_and_trim() {
+        let ctx = lits::ctx_bgv_n2_1p();
+        let pid = *ctx.first_parms_id();
+        let q = 97u64; let t = 17u64;
+        let s = [1u64, q - 1];
+        let mut s_ntt = s;
+        { let cd = ctx.key_context_data().unwrap(); polymod::ntt_p(&mut s_ntt, 2, cd.small_ntt_tables()); std::mem::forget(cd); }
+        let dec = mk_decryptor(ctx.clone(), s_ntt.to_vec());
+        // the phase is chosen in the coefficient domain; the ciphertext is (phase - c1*s, c1) with c1 = 0 + 5 X, transformed with the real NTT
+        let ph: [u8; 2] = kani::any(); kani::assume(ph[0] < 97 && ph[1] < 97);
+        let c1 = [0u64, 5];
+        // c1*s = (5X)(1 - X) = 5X - 5X^2 = 5 + 5X
+        let mut c0 = [(ph[0] as u64 + q - 5) % q, (ph[1] as u64 + q - 5) % q];
+        let mut c1n = c1;
+        { let cd = ctx.first_context_data().unwrap(); polymod::ntt_p(&mut c0, 2, cd.small_ntt_tables()); polymod::ntt_p(&mut c1n, 2, cd.small_ntt_tables()); std::mem::forget(cd); }
+        let cf3: bool = kani::any();
+        let ct = mk_ciphertext(2, 1, 2, vec![c0[0], c0[1], c1n[0], c1n[1]], pid, 1.0, true, if cf3 { 3 } else { 1 });
+        let p = dec.decrypt_new(&ct);
+        let cen = |x: u64| if x >= (q + 1) / 2 { (t - (q - x) % t) % t } else { x % t };
+        let fix = if cf3 { 6 } else { 1 };                          // 3^-1 mod 17 = 6
+        let m0 = cen(ph[0] as u64) * fix % t; let m1 = cen(ph[1] as u64) * fix % t;
+        kani::cover!(m0 == 0 && m1 != 0);
+        kani::cover!(m1 == 0 && m0 != 0);
+        let n = p.coeff_count();
+        assert!(n == if m1 != 0 { 2 } else { 1 } && p.data().len() == n);
+        assert!(p.data()[0] == m0 && (n < 2 || p.data()[1] == m1));
+        assert!(!p.is_ntt_form());
+        std::mem::forget(dec); std::mem::forget(ctx);
+    }
+
+    // @harness id=C01 tier=quick unwind=10 timeout=2400 fs=4096
     // @desc scaling_variant::multiply_add_plain / multiply_sub_plain add resp. subtract exactly round-half-up(q*m/t) = floor((q*m + floor((t+1)/2)) / t) to every RNS component of the destination, for every plaintext coefficient m < t (incl. 0, t-1, the upper half) and short plaintexts (remaining coefficients untouched)
     // @bounds BFV N=2, q={97,113} (Q=10961), t=17 (batching prime) -- parameter corner t=16 (power of two, q in non-ascending order) in c01_multiply_add_plain_pow2t; plaintext length 1 or 2; all m < t; all prior destination residues
     // @funcs scaling_variant::multiply_add_plain, scaling_variant::multiply_sub_plain, multiply_u64operand_add_u64_mod, divide_u128_u64_inplace
@@ -153,7 +191,7 @@ mod proofs {
         let bits = |x: u64| (64 - x.leading_zeros()) as isize;
         let e = bits(q) - bits(norm) - 1;
         kani::cover!(e > 3);
-        kani::cover!(e < 0);
+        kani::cover!(e == 0);                                    // zero budget (norm has bits(q)-1 bits); e < 0 cannot occur since the centred norm is below q/2
         assert!(b as isize == if e < 0 { 0 } else { e });
         std::mem::forget(dec); std::mem::forget(ctx);
     }
